@@ -12,7 +12,16 @@ NoInflowToSources, NoOutflowFromSinks, SourceOutEqSinkIn, PopsProbability (and t
 input facts: stationarity, detailed balance, backward committor = 1 - forward) on all
 of them, and prints the exact expected matrices.  The driver replays every printed
 case into the real functions, populations given and None, dense / csr / lil / csc
-containers, compares at 1e-9 relative and requires the inputs to be unchanged.
+containers, compares at 1e-9 relative PER ENTRY and requires the inputs to be
+unchanged; every case is replayed a third time with the populations multiplied by
+2^-30 (PopulationScaling / ScalingLaw: all fluxes scale by 2^-30, below 1e-8) and
+with another listing (order, integer container) of the source and sink sets.
+
+Spec: specs/tpt/LineFlux.tla (extends LineChain.tla, BigNat.tla): chains on a line
+with ~1000 states, and small ones whose weights span up to 8 orders of magnitude
+(forward and backward flux agreeing to 2e-6 of their size with a real net flux; net
+fluxes of 1e-9), exact values over BigNat; same invariants, same replay with ndarray
+(C / F), csr, csc, lil, coo, dok, csr_array, lil_array containers.
 """
 import json
 import os
@@ -267,7 +276,8 @@ def run(ctx):
     ctx.rule = ("TLC enumerates every connected symmetric integer matrix with entries 0..MaxX (self-weights "
                 "included) on N states x every disjoint non-empty source/sink pair; each case is replayed with "
                 "populations given and None, dense + sparse containers; distinct by (X, sources, sinks); non-trivial when some "
-                "state lies strictly between the two sets in committor")
+                "state lies strictly between the two sets in committor; LineFlux.tla: 8 chains with 999..1200 "
+                "states, 20 stiff chains with 4..8 states, every placement on 2..5 states, 9 containers")
     ctx.assumptions += ["LineFlux.tla: reversible nearest-neighbour chains with 999..1200 states, and small ones whose "
                         "weights span up to 8 orders of magnitude; values compared at %g relative per entry (+ %g of "
                         "the largest entry), %g for the chains with weights spanning >= 4 orders of magnitude; with "
